@@ -32,7 +32,7 @@ func hasTail(p *rm.Parsed) bool {
 }
 
 func replayC14(rc routingCase, o rs.Outcome) error {
-	b := rs.Build(rc.Table, rs.BuildOpt{Router: routerOf(rc.Router)})
+	b := rs.Build(rc.Table, rs.BuildOpt{Router: routerOf(rc.Router), Options: rc.Options})
 	twin := rc.Req
 	twin.Slash = true
 	o2 := b.Do(twin.HTTP(), h.NewRec(), false)
@@ -48,10 +48,17 @@ func checkC14(run *h.Run) {
 	all := map[string]sweepStats{}
 	var order []string
 	for _, router := range []rm.Router{rm.Curly, rm.JSR311} {
-		for _, sp := range routingSweeps(router, run.Tier, false) {
+		sweeps := routingSweeps(router, run.Tier, false)
+		// (O1, O2) OPTIONS requests on containers with the OPTIONS filter installed: its Allow list
+		// is part of the outcome
+		uo := rs.Universe{Tokens: []string{"a", "b", "{x}"}, Roots: []string{"/", "/a", "/a/b", "/{r}", "/a/"}, MaxSub: 2, Segs: []string{"a", "b", "7"}, MaxPath: 3, RMethods: []string{"GET", "POST"}}
+		oreqs := crossReqs(uo.Paths(), []string{"OPTIONS", "GET"}, rs.PathSweepHeaders[:1], false)
+		sweeps = append(sweeps, sweep{"O1", router, singles(pathAtoms(uo)), oreqs}, sweep{"O2", router, pairs(pathAtoms(uo)), oreqs})
+		for _, sp := range sweeps {
 			if sp.Name == "H1" || sp.Name == "H2" {
 				continue
 			}
+			opt := rs.BuildOpt{Router: router, Options: sp.Name == "O1" || sp.Name == "O2"}
 			// keep only p (no trailing slash, last segment non-empty, some non-empty segment) and build its twin p/
 			var ps, twins []h.Req
 			for _, r := range sp.Reqs {
@@ -72,7 +79,7 @@ func checkC14(run *h.Run) {
 				if router == rm.JSR311 && hasTail(p) {
 					return // RouterJSR311: templates without a tail wildcard
 				}
-				b := rs.Build(t, rs.BuildOpt{Router: router})
+				b := rs.Build(t, opt)
 				if b.Panic != "" {
 					atomic.AddInt64(&st.buildPanics, 1)
 					return
@@ -90,10 +97,10 @@ func checkC14(run *h.Run) {
 						nontriv++
 					}
 					if k1 != k2 || k1 != o1b.Key() {
-						rc := routingCase{Sweep: sp.Name, Router: router.String(), Table: t, Req: w.reqs[qi], Observed: o1, Other: o2}
+						rc := routingCase{Sweep: sp.Name, Router: router.String(), Table: t, Req: w.reqs[qi], Observed: o1, Other: o2, Options: opt.Options}
 						qi := qi
 						run.Violate("trailing-slash/"+router.String(), "", fmt.Sprintf("[%s] %v ; %v -> %s but with trailing slash -> %s (again without: %s)", router, t, w.reqs[qi], k1, k2, o1b.Key()), rc, func() bool {
-							b2 := rs.Build(t, rs.BuildOpt{Router: router})
+							b2 := rs.Build(t, opt)
 							a := b2.Do(w.reqs[qi].HTTP(), h.NewRec(), false)
 							c := b2.Do(w.reqs[n+qi].HTTP(), h.NewRec(), false)
 							return a.Key() != c.Key()
@@ -116,6 +123,6 @@ func checkC14(run *h.Run) {
 	run.Cov["evaluations"] = disp
 	run.Cov["distinct_nontrivial"] = nontriv
 	run.Cov["exhaustive"] = true
-	run.Cov["rule"] = "E1: sweeps P1, P2, X2 (thorough P3) restricted to paths p with a non-empty last segment and no trailing slash; p, p/ and p again are dispatched on the same container; outcome = status, route id, parameter map, Allow set. CurlyRouter on all templates, RouterJSR311 on tables without a tail wildcard. Non-trivial: at least one of the two is not a 404."
+	run.Cov["rule"] = "E1: sweeps P1, P2, X2, P4, P5, M1, M2, D1, W1 (thorough P3, deep variants), and O1/O2 (1- and 2-route tables incl. a root declared with a trailing slash, on containers with the OPTIONS filter installed, OPTIONS and GET requests), restricted to paths p with a non-empty last segment and no trailing slash; p, p/ and p again are dispatched on the same container; outcome = status, route id, parameter map, Allow set. CurlyRouter on all templates, RouterJSR311 on tables without a tail wildcard. Non-trivial: at least one of the two is not a 404."
 	run.Assume = []string{"purely differential: no reference model involved", "default path strategy (TrimRightSlashEnabled=true)"}
 }
